@@ -95,7 +95,8 @@ def applyOp (ord : Ord) (c : Circuit) (j : Json) : Except String (Circuit × Out
     let bb ← bboxOfJson bbj 0
     viaStep (.addBlackbox bb (← (← j.getObjVal? "name").getStr?) (← connsOfJson (← j.getObjVal? "connections")))
   | "add_subcircuit" =>
-    let sc ← circuitOfJson (← j.getObjVal? "sc")
+    -- "self": the circuit is added into itself (the child is the state at the time of the call)
+    let sc ← if getBoolD j "self" false then pure c else circuitOfJson (← j.getObjVal? "sc")
     if !getBoolD j "strip_io" true then
       let (c', o) := c.addSubcircuit sc (← (← j.getObjVal? "name").getStr?)
         (← connsOfJson (← j.getObjVal? "connections")) false
